@@ -102,7 +102,10 @@ def consumers_of(ir: list, cp: int) -> Set[str]:
                                 % {0: "one-high-surrogate", 1: "two-high-surrogates",
                                    2: "three-high-surrogates"}.get(span, "many-high-surrogates")
                             )
-                    if lo <= high <= hi or lo <= low <= hi:
+                    if (lo <= high <= hi or lo <= low <= hi) and not (lo < 0xD800 and hi > 0xFFFF):
+                        # a range from below the surrogate block up into a supplementary
+                        # plane covers the surrogates only incidentally: a faithful
+                        # rewriting leaves them out, so it is not the documented limitation
                         found.add("surrogate-in-pattern")
             elif tag == "alt":
                 for alt in node[1]:
@@ -565,6 +568,8 @@ def main(argv: Sequence[str]) -> int:
         systematic = systematic[chk.seed % 3::3]
     for pattern in systematic:
         mon.run(pattern, "systematic-astral-range", rng)
+    for pattern in rg.bmp_to_astral_range_patterns():
+        mon.run(pattern, "systematic-bmp-to-astral-range", rng)
     from vf.checks import c16  # corpus patterns shipped with the repository
 
     for pieces in c16.corpus_pieces():
